@@ -28,7 +28,7 @@ func (s *Subscription) Cancel() error {
 	defer verifEvent("subcancel:unlock", s)
 
 	for key, sub := range c.subscriptions {
-		if sub.q == s.q {
+		if sub == s {
 			c.subscriptions = append(c.subscriptions[:key], c.subscriptions[key+1:]...)
 			verifEvent("subcancel:removed", s, sub)
 			close(s.Feed) // this close is guarded by the controllers subscriptionLock.
